@@ -43,8 +43,24 @@ IsBoolK(v) == v.st = "k" /\ v.ty.k = "bool"
 IsStrK(v)  == v.st = "k" /\ v.ty.k = "string"
 FinSmall(n) == IsSmallN(n)
 
+\* whole landmarks that are neighbours: LmNext[n] = n + 1 (exact facts about the named constants)
+LmNext == [i16max |-> "i16maxp", u16max |-> "u16maxp", i32max |-> "i32maxp", u32max |-> "u32maxp", f64int |-> "f64intp",
+           i64max |-> "i64maxp", u64max |-> "u64maxp", i16minm |-> "i16min", i32minm |-> "i32min", i64minm |-> "i64min"]
+LmStep(n, k) ==     \* the landmark n + k for k = 1 / -1, if it is a named landmark
+  IF k = 1 /\ n.lm \in DOMAIN LmNext THEN OKV(NumK([lm |-> LmNext[n.lm]]))
+  ELSE IF k = -1 /\ (\E m \in DOMAIN LmNext : LmNext[m] = n.lm) THEN OKV(NumK([lm |-> CHOOSE m \in DOMAIN LmNext : LmNext[m] = n.lm]))
+  ELSE UNDEF
+\* mantissa bits needed to hold a whole landmark exactly
+LmBits == [i16max |-> 15, i16maxp |-> 1, u16max |-> 16, u16maxp |-> 1, i32max |-> 31, i32maxp |-> 1, u32max |-> 32, u32maxp |-> 1, f64int |-> 1, f64intp |-> 54,
+           i64max |-> 63, i64maxp |-> 1, u64max |-> 64, u64maxp |-> 1, i16minm |-> 16, i16min |-> 1, i32minm |-> 32, i32min |-> 1, i64minm |-> 64, i64min |-> 1]
+NeedBits(v) == IF v.st = "k" /\ v.ty.k = "number" /\ Has(v.v, "lm") /\ v.v.lm \in DOMAIN LmBits THEN LmBits[v.v.lm] ELSE 24
+IsUnit(n) == Has(n, "q") /\ n.q \in {4, -4}
+BigLm(n) == Has(n, "lm") /\ ~IsSmallN(n)
 RefArith(op, x, y) ==     \* x, y number payloads
   IF ~(HasRank(x) /\ HasRank(y)) THEN UNDEF
+  ELSE IF op = "Add" /\ BigLm(x) /\ IsUnit(y) THEN LmStep(x, y.q \div 4)
+  ELSE IF op = "Add" /\ BigLm(y) /\ IsUnit(x) THEN LmStep(y, x.q \div 4)
+  ELSE IF op = "Subtract" /\ BigLm(x) /\ IsUnit(y) THEN LmStep(x, -(y.q \div 4))
   ELSE IF IsInfN(x) \/ IsInfN(y) THEN
     CASE op = "Add" -> IF IsInfN(x) /\ IsInfN(y) THEN (IF x = y THEN OKV(NumK(x)) ELSE UNDEF)
                        ELSE OKV(NumK(IF IsInfN(x) THEN x ELSE y))
@@ -159,6 +175,11 @@ CallFailed(e) ==
    ELSE IF ~e.r.ok THEN {"C02.ResultIsRef"}
    ELSE IF NumUnranked(e.r.val) THEN {}
    ELSE IF Match(e.r.val, ref.val) THEN {} ELSE {"C02.ResultIsRef"})
+  \* the same under every physical representation of the operands whose precision can hold the exact result
+  \* ("to within the precision of their operands"): rp lists, per representation, the largest operand precision and the outcome
+  \cup (IF Has(ref, "undef") \/ ~ref.ok \/ ~Has(e, "rp") THEN {}
+        ELSE IF \E i \in 1..Len(e.rp) : e.rp[i].mp >= NeedBits(ref.val) /\ (~e.rp[i].r.ok \/ (~NumUnranked(e.rp[i].r.val) /\ ~Match(e.rp[i].r.val, ref.val)))
+             THEN {"C02.ResultIsRefAllReps"} ELSE {})
   \cup (IF Len(e.rs) = 1 THEN {} ELSE {"C20.Pure"})
   \cup (IF Len(e.rr) = 1 THEN {} ELSE {"C20.RepInvariant"})
   \cup (IF e.r.ok /\ ~WellFormedR(e.r) THEN {"C06.WellFormed"} ELSE {})
@@ -206,7 +227,7 @@ MarkNontrivial(e) == e.ra.ok /\ UnionMarks(e.a) # {}
 (***************************************************************************)
 NumK1 == {K(TNum, n) : n \in Nums}
 BoolK1 == {BoolV(TRUE), BoolV(FALSE)}
-KeyNums == {NumV(0), NumV(4), NumV(8), NumV(-4), NumV(2), Null(TNum)}
+KeyNums == {NumV(0), NumV(4), NumV(8), NumV(-4), NumV(2), NumV(-2), NumV(-1), NumV(6), Null(TNum)}
 KeyStrs == {StrV(<<"a">>), StrV(<<"b">>), StrV(<<"a", "b">>), Null(TStr)}
 IndexableT == {t \in VT : t.k \in {"list", "tuple", "map"}}
 SetT == {t \in VT : t.k = "set"}
@@ -216,6 +237,8 @@ LenT == {t \in VT : t.k \in {"list", "set", "map", "tuple"}}
 \* wholly known, well-typed operand tuples per operation
 ArgTuples(op) ==
   CASE op \in NumBin -> {<<x, y>> : x \in NumK1, y \in NumK1}
+                        \cup (IF op \in {"Add", "Subtract"} THEN {<<NumK([lm |-> n]), u>> : n \in DOMAIN LmNext \cup {LmNext[m] : m \in DOMAIN LmNext}, u \in {NumV(4), NumV(-4)}}
+                                                                  \cup {<<u, NumK([lm |-> n])>> : n \in DOMAIN LmNext, u \in {NumV(4), NumV(-4)}} ELSE {})
     [] op \in NumUn -> {<<x>> : x \in NumK1}
     [] op \in BoolBin -> {<<x, y>> : x \in BoolK1, y \in BoolK1}
     [] op \in BoolUn -> {<<x>> : x \in BoolK1}
